@@ -42,6 +42,22 @@ var collider = func() string {
 	}
 }()
 
+// nonASCII is a message with multi-byte and invalid UTF-8 bytes; nonASCIICollider
+// a different non-ASCII message in the same bucket. The documented hash runs
+// over the message BYTES; hashing runes (or anything else that agrees on ASCII
+// only) separates these two or merges them with others.
+const nonASCII = "r\u00e9q \xff\xfe"
+
+var nonASCIICollider = func() string {
+	want := bucket(nonASCII)
+	for i := 0; ; i++ {
+		s := "\u00e9chou\u00e9e " + strconv.Itoa(i) + " \u00fc"
+		if bucket(s) == want {
+			return s
+		}
+	}
+}()
+
 // enabler: Debug is disabled, everything else (also out-of-range values) enabled.
 var enabler = zap.LevelEnablerFunc(func(l zapcore.Level) bool { return l != zapcore.DebugLevel })
 
@@ -53,13 +69,14 @@ type key struct {
 func keys() []key {
 	return []key{
 		{zapcore.InfoLevel, "a"},
-		{zapcore.InfoLevel, "b"},
+		{zapcore.InfoLevel, nonASCII}, // independent of "a"; non-ASCII bytes
 		{zapcore.InfoLevel, collider},
 		{zapcore.WarnLevel, "a"},
-		{zapcore.DebugLevel, "a"},   // disabled
-		{zapcore.Level(9), "a"},     // out of range, enabled
-		{zapcore.Level(-7), "a"},    // out of range (below), enabled
-		{zapcore.FatalLevel, "a"},   // highest in-range level
+		{zapcore.DebugLevel, "a"},             // disabled
+		{zapcore.Level(9), "a"},               // out of range, enabled
+		{zapcore.Level(-7), "a"},              // out of range (below), enabled
+		{zapcore.FatalLevel, "a"},             // highest in-range level
+		{zapcore.InfoLevel, nonASCIICollider}, // shares the budget of nonASCII
 	}
 }
 
@@ -191,10 +208,17 @@ func symStr(ks []key, ds []int64, s sym) string {
 }
 
 // sequential part for one configuration; returns sequences run, steps, distinct ref states
-func seqConfig(run *ev.Run, n, m int, tick time.Duration, maxLen int, states map[string]bool, mu *sync.Mutex) (seqs, steps int64) {
+// syms == nil: the whole alphabet; otherwise only those symbol indices (the
+// deeper pass over the reduced alphabet).
+func seqConfig(run *ev.Run, n, m int, tick time.Duration, maxLen int, syms []int, states map[string]bool, mu *sync.Mutex) (seqs, steps int64) {
 	ks := keys()
 	ds := deltas(tick)
 	nsym := len(ks) * len(ds)
+	if syms == nil {
+		for s := 0; s < nsym; s++ {
+			syms = append(syms, s)
+		}
+	}
 	r := newRig(n, m, tick)
 	base := int64(1_000_000_000_000)
 	sinceFresh := 0
@@ -233,7 +257,7 @@ func seqConfig(run *ev.Run, n, m int, tick time.Duration, maxLen int, states map
 			if len(local) < 5000 {
 				// canonical reference state of the touched counters
 				st := ""
-				for _, kk := range []refKey{{zapcore.InfoLevel, bucket("a")}, {zapcore.InfoLevel, bucket("b")}, {zapcore.WarnLevel, bucket("a")}, {zapcore.FatalLevel, bucket("a")}} {
+				for _, kk := range []refKey{{zapcore.InfoLevel, bucket("a")}, {zapcore.InfoLevel, bucket(nonASCII)}, {zapcore.WarnLevel, bucket("a")}, {zapcore.FatalLevel, bucket("a")}} {
 					if rc := r.ref[kk]; rc != nil {
 						st += fmt.Sprintf("%d@%d ", rc.c, rc.w-base)
 					} else {
@@ -251,7 +275,7 @@ func seqConfig(run *ev.Run, n, m int, tick time.Duration, maxLen int, states map
 		if len(seq) == maxLen {
 			return
 		}
-		for s := 0; s < nsym; s++ {
+		for _, s := range syms {
 			seq = append(seq, sym{s / len(ds), s % len(ds)})
 			rec()
 			seq = seq[:len(seq)-1]
@@ -426,10 +450,40 @@ func main() {
 	var mu sync.Mutex
 	par.For(len(cfgs), func(i int) {
 		c := cfgs[i]
-		s, st := seqConfig(run, c.n, c.m, c.tick, maxLen, states, &mu)
+		l := maxLen
+		if run.Thorough() && c.tick == time.Second {
+			l = maxLen - 1 // the 1s tick differs from 10ns only in magnitude; the full depth is spent on the two small ticks
+		}
+		s, st := seqConfig(run, c.n, c.m, c.tick, l, nil, states, &mu)
 		seqs.Add(s)
 		steps.Add(st)
 	})
+	// deeper pass over a reduced alphabet: keys (Info,a), (Info,collider of a),
+	// (Warn,a) x deltas {0, tick-1, tick, -1} - the symbols that move one
+	// counter through its window and budget - to length deepLen
+	var reduced []int
+	nd := len(deltas(time.Second))
+	for _, k := range []int{0, 2, 3} {
+		for _, d := range []int{0, 1, 2, 4} {
+			reduced = append(reduced, k*nd+d)
+		}
+	}
+	deepLen := 5
+	if run.Thorough() {
+		deepLen = 6
+	}
+	var dseqs atomic.Int64
+	par.For(len(cfgs), func(i int) {
+		c := cfgs[i]
+		if run.Thorough() && c.tick == time.Second {
+			return // length 6 only for the two small ticks (the 1s tick behaves identically in the model; it is covered to length 5 by quick)
+		}
+		s, st := seqConfig(run, c.n, c.m, c.tick, deepLen, reduced, states, &mu)
+		seqs.Add(s)
+		dseqs.Add(s)
+		steps.Add(st)
+	})
+	deepSeqs := dseqs.Load()
 
 	var items []string
 	for _, mode := range []string{"inwindow", "straddle"} {
@@ -462,7 +516,7 @@ func main() {
 		run.Report("conc:"+v.Item+":"+fmt.Sprint(v.Choices), v.Detail, v)
 	}
 	run.Assume = []string{
-		"messages are bucketed by fnv32a mod 4096 per level (the 'fixed hash' of the statement); collider of \"a\" found by search: " + collider,
+		"messages are bucketed by fnv32a mod 4096 per level (the 'fixed hash' of the statement); collider of \"a\" found by search: " + collider + "; non-ASCII message " + strconv.Quote(nonASCII) + " and its collider " + strconv.Quote(nonASCIICollider),
 		"timestamps are int64 nanoseconds well inside the representable range",
 		"concurrent part: the sampler's atomic operations are the scheduling points; all interleavings without a preemption bound for <=4 entries, preemption bound 4 above",
 	}
@@ -472,7 +526,7 @@ func main() {
 		"traces_validated_against_impl": seqs.Load() + sum.Execs,
 		"evaluations":                   seqs.Load() + sum.Execs,
 		"distinct_nontrivial":           len(states) + len(sum.Outcomes),
-		"rule":                          fmt.Sprintf("sequential: every sequence of length <=%d over 8 keys x 6 timestamp deltas {0,tick-1,tick,tick+1,-1,-(tick+1)} for first,thereafter in 0..3 and tick in {1ns,10ns,1s}, on the parent and alternating parent/With-child, real sampler in lockstep with the reference counters; concurrent: every interleaving of 2-3 threads x 1-2 same-key entries inside / straddling a window; distinct = distinct reference counter states / admitted counts", maxLen),
+		"rule":                          fmt.Sprintf("sequential: every sequence of length <=%d over 9 keys (incl. a non-ASCII message and a non-ASCII collider of it) x 6 timestamp deltas {0,tick-1,tick,tick+1,-1,-(tick+1)} for first,thereafter in 0..3 and tick in {1ns,10ns,1s}, on the parent and alternating parent/With-child, real sampler in lockstep with the reference counters; concurrent: every interleaving of 2-3 threads x 1-2 same-key entries inside / straddling a window; distinct = distinct reference counter states / admitted counts", maxLen),
 		"samples": []any{
 			map[string]any{"config": "first=1 thereafter=2 tick=10ns", "sequence": "(info,\"a\",dt=0) (info,\"" + collider + "\",dt=9) (info,\"a\",dt=10)"},
 			map[string]any{"concurrent_item": items[0]},
@@ -481,6 +535,9 @@ func main() {
 		"sequential_sequences":   seqs.Load(),
 		"sequential_decisions":   steps.Load(),
 		"sequence_length":        maxLen,
+		"deep_sequence_length":   deepLen,
+		"deep_alphabet":          "keys (info,a) (info,collider-of-a) (warn,a) x deltas {0, tick-1, tick, -1}",
+		"deep_sequences":         deepSeqs,
 		"configurations":         len(cfgs),
 		"concurrent_drivers":     len(items),
 		"concurrent_schedules":   sum.Execs,
